@@ -208,6 +208,31 @@ fn case(t0: &mut Tape, w: &Worker) -> CaseResult {
     Ok(out)
 }
 
+/// hand-built reproduction of the repaired defect F13: statistics written in a view mode must list the links sorted
+fn regress_case(i: u64, w: &Worker) -> CaseResult {
+    let mut bytes = vec![];
+    for link in [5u8, 2, 9, 0] {
+        let mut r = Rdh { link_id: link, ..Rdh::default() };
+        r.set_sizes(0);
+        bytes.extend_from_slice(&r.encode());
+    }
+    let sp = w.path("st.json");
+    let mut args: Vec<String> = if i % 2 == 0 { vec!["view".into(), "rdh".into()] } else { vec!["-f".into(), "2".into(), "-o".into(), "stdout".into()] };
+    args.extend(stats_args(&sp, false));
+    let mut case = CliCase::new(w, bytes.clone());
+    let (spec, _o) = case.run(args, false);
+    let st = read_stats(&sp, false).unwrap_or(json!({}));
+    if st["rdh_stats"]["links"] != json!([0, 2, 5, 9]) {
+        return Err(Fail::new("C14:view:links(sorted)", format!("links = {}", st["rdh_stats"]["links"]), json!({"cmd": spec.describe(), "input": input_detail(&bytes)})));
+    }
+    let mut out = CaseOut::default();
+    out.nontrivial = true;
+    out.fingerprint = 0xF13 + i;
+    out.execs = 1;
+    out.labels.push("regress:F13".into());
+    Ok(out)
+}
+
 pub fn build() -> Property {
     Property {
         id: "C14",
@@ -220,6 +245,6 @@ pub fn build() -> Property {
             "sets are compared as sets (first-seen order of FEE ids / layer-staves is not part of the statement); links must be sorted".into(),
             "runs that stop early with a FATAL error and inputs whose first analysed packet has an unknown system id are excluded (counted)".into(),
         ],
-        phases: vec![Phase { name: "cli_stats", kind: PhaseKind::Gen { cases: (7000, 50000), tape_len: 8 + 32 + 64 + 2000 + 6 * 4000 + 14000 + 200, f: Box::new(case) }, threads: 16 }],
+        phases: vec![Phase { name: "regress_fixed", kind: PhaseKind::Enum { n: (2, 2), exhaustive: (false, false), f: Box::new(regress_case) }, threads: 2 }, Phase { name: "cli_stats", kind: PhaseKind::Gen { cases: (7000, 50000), tape_len: 8 + 32 + 64 + 2000 + 6 * 4000 + 14000 + 200, f: Box::new(case) }, threads: 16 }],
     }
 }
